@@ -27,4 +27,64 @@ theorem handed_removeCustom (st : Svc) (h : Handle) :
   · exact ⟨rfl, List.Sublist.refl _⟩
   · exact ⟨by simp [triggerUpdate], by simpa [triggerUpdate] using List.eraseIdx_sublist _ _⟩
 
+/-! ### whole sequences, service origin: installed per the translated service ⇔ installed per `stepOp` -/
+
+def hostIn (l : List Trig) : Bool := l.any (fun t => t.path == "host.py")
+
+theorem installedObj_isSome (w : World) : (installedObj w).isSome = (hostIn w.svc.polled || hostIn w.svc.custom) := by
+  simp only [installedObj, handed_eq, Option.isSome_map, hostIn, ← List.any_append]
+  cases h : List.find? (fun t => t.path == "host.py") (w.svc.polled ++ w.svc.custom) with
+  | none =>
+    have := List.find?_eq_none.mp h
+    simp only [Option.isSome_none]
+    symm
+    rw [Bool.eq_false_iff]
+    intro ha
+    obtain ⟨x, hx, hp⟩ := List.any_eq_true.mp ha
+    exact this x hx hp
+  | some t =>
+    have hm := List.mem_of_find?_eq_some h
+    have hp := List.find?_some h
+    simp only [Option.isSome_some]
+    symm
+    exact List.any_eq_true.mpr ⟨t, hm, hp⟩
+
+/-- one operation, service origin: the registrations never hold our tracepoint, and installed-ness moves alike -/
+theorem svcOp_service_step (c : Cfg) (w : World) (s : Option Extracted.Limiter.Stats) (op : Op)
+    (hcus : hostIn w.svc.custom = false) (hrel : (installedObj w).isSome = s.isSome) :
+    hostIn (svcOp .service w op).svc.custom = false ∧
+    (installedObj (svcOp .service w op)).isSome = (stepOp c .service s op).1.isSome := by
+  rw [installedObj_isSome] at hrel ⊢
+  cases op with
+  | hit h =>
+    refine ⟨hcus, ?_⟩
+    cases s with
+    | none => simpa [svcOp, stepOp] using hrel
+    | some st => simpa [svcOp, stepOp] using hrel
+  | update present =>
+    cases present <;>
+      simp [svcOp, stepOp, updateNewConfig, triggerUpdate, hostIn, ourTrig, otherTrig] <;>
+      simpa [hostIn] using hcus
+  | noChange => exact ⟨by simpa [svcOp, updateNoChange] using hcus, by simpa [svcOp, stepOp, updateNoChange] using hrel⟩
+  | otherCustom =>
+    have e : hostIn (w.svc.custom ++ [otherTrig (w.gen + 1)]) = false := by
+      simp [hostIn, List.any_append, otherTrig] at hcus ⊢
+      exact hcus
+    exact ⟨by simpa [svcOp, addCustom, triggerUpdate] using e,
+      by simpa [svcOp, stepOp, addCustom, triggerUpdate, e, hcus] using hrel⟩
+  | register => exact ⟨by simpa [svcOp] using hcus, by simpa [svcOp, stepOp] using hrel⟩
+  | unregister => exact ⟨by simpa [svcOp] using hcus, by simpa [svcOp, stepOp] using hrel⟩
+
+theorem svcOp_service_run (c : Cfg) : ∀ (ops : List Op) (w : World) (s : Option Extracted.Limiter.Stats),
+    hostIn w.svc.custom = false → (installedObj w).isSome = s.isSome →
+    (installedObj (ops.foldl (svcOp .service) w)).isSome =
+      (ops.foldl (fun s op => (stepOp c .service s op).1) s).isSome := by
+  intro ops
+  induction ops with
+  | nil => intro w s _ h; simpa using h
+  | cons op ops ih =>
+    intro w s hc hr
+    obtain ⟨h1, h2⟩ := svcOp_service_step c w s op hc hr
+    simpa using ih _ _ h1 h2
+
 end Limiter
